@@ -174,7 +174,7 @@ def run(tier, seed, replay=None):
              '  | Some (x, l), Some (y, m) => str_eqb x y && sl_eqb l m | _, _ => false end.',
              'Definition ok (c : catalog * list str * option (str * list str) * option (str * list str)) : bool * bool :=',
              "  let '(C, parts, r1, r2) := c in (o_eqb (resolve_db C parts) r1, o_eqb (resolve_join C parts) r2).",
-             'Definition cases := [',
+             'Definition cases : list (catalog * list str * option (str * list str) * option (str * list str)) := [',
              ';\n'.join(f' ({coq_catalog(pl)}, {nll(parts)}, {opt_pair(r1)}, {opt_pair(r2)})' for cn, pl, parts, r1, r2 in rows),
              '].', 'Eval vm_compute in map ok cases.']
     write_if_changed(GEN / 'C10_unit_0.v', '\n'.join(lines) + '\n')
@@ -231,7 +231,7 @@ def run(tier, seed, replay=None):
              'Definition ok (c : list centry * list str * list str * list str) : bool :=',
              "  let '(es, ns, dbs, projs) := c in let C := mk_catalog es ns None in",
              '  sub (c_projects C) projs && sub projs (c_projects C) && sub (c_databases C) dbs && sub dbs (c_databases C).',
-             'Definition cases := [',
+             'Definition cases : list (list centry * list str * list str * list str) := [',
              ';\n'.join(f' ([{"; ".join(es)}], {nll(ns)}, {nll(dbs)}, {nll(projs)})' for es, ns, dbs, projs, kw in crows),
              '].', 'Eval vm_compute in map ok cases.']
     write_if_changed(GEN / 'C10_catalog.v', '\n'.join(lines) + '\n')
@@ -424,7 +424,7 @@ def run(tier, seed, replay=None):
               '  forallb (fun t => existsb (fun o => match resolve_db C o with',
               '                                       | Some (db, rest) => str_eqb db integ && sl_eqb rest t',
               '                                       | None => false end) orig) tabs.',
-              'Definition cases := [',
+              'Definition cases : list (catalog * str * list (list str) * list (list str)) := [',
               ';\n'.join(f' ({coq_catalog(pl)}, {nl(integ)}, [{"; ".join(nll(t) for t in tabs)}], [{"; ".join(nll(t) for t in orig)}])'
                          for sql, cn, pl, integ, tabs, orig in prows[k:k + shard]),
               '].', 'Eval vm_compute in map ok cases.']
